@@ -57,12 +57,17 @@ fn gen_const(r: &mut SplitMix, depth: u32, want_big_nat: bool) -> (ValueObj, Val
             (ValueObj::Int(v), json!({"t": "int", "v": v.to_string()}))
         }
         2 => {
-            let pool: &[u64] = if want_big_nat {
-                &[0, 1, 255, 65536, (1 << 31) - 1, 1 << 31, (1 << 32) + 5, 1 << 62, 1 << 63, u64::MAX]
-            } else {
-                &[0, 1, 255, 65536, (1 << 31) - 1, 12345678]
+            // every bit length 1..=64 (beyond 31 bits only when asked for), at its edges and inside
+            let max_bits = if want_big_nat { 64 } else { 31 };
+            let bits = r.range(1, max_bits);
+            let lo: u64 = 1u64 << (bits - 1);
+            let hi: u64 = if bits == 64 { u64::MAX } else { (1u64 << bits) - 1 };
+            let v = match r.below(4) {
+                0 => lo,
+                1 => hi,
+                2 => lo + r.below(hi - lo + 1),
+                _ => *r.pick(&[0u64, 1, 255, 65536, 12345678]),
             };
-            let v = *r.pick(pool);
             (ValueObj::Nat(v), json!({"t": "int", "v": v.to_string()}))
         }
         3 => {
@@ -96,9 +101,19 @@ fn gen_const(r: &mut SplitMix, depth: u32, want_big_nat: bool) -> (ValueObj, Val
     }
 }
 
+/// identifiers: mostly short ASCII; sometimes non-ASCII, sometimes longer than 255 bytes
+fn gen_ident(r: &mut SplitMix, prefix: &str, i: u64) -> Str {
+    match r.below(12) {
+        0 => Str::from(format!("{prefix}{i}_変数{}", r.below(100))),
+        1 => Str::from(format!("{prefix}{i}_é{}", r.below(100))),
+        2 => Str::from(format!("{prefix}{i}_{}", "long_".repeat(r.range(50, 60) as usize))),
+        _ => Str::from(format!("{prefix}{i}_{}", r.below(100))),
+    }
+}
+
 fn gen_names(r: &mut SplitMix, lo: u64, hi: u64, prefix: &str) -> Vec<Str> {
     let n = r.range(lo, hi);
-    (0..n).map(|i| Str::from(format!("{prefix}{i}_{}", r.below(100)))).collect()
+    (0..n).map(|i| gen_ident(r, prefix, i)).collect()
 }
 
 fn gen_code(r: &mut SplitMix, depth: u32, want_big_nat: bool) -> (CodeObj, Value) {
@@ -115,7 +130,7 @@ fn gen_code(r: &mut SplitMix, depth: u32, want_big_nat: bool) -> (CodeObj, Value
     let freevars = if closure { gen_names(r, 0, 2, "f") } else { vec![] };
     let cellvars = if closure { gen_names(r, 0, 2, "c") } else { vec![] };
     let code: Vec<u8> = (0..r.range(0, 40) * 2).map(|_| r.below(256) as u8).collect();
-    let name = Str::from(format!("fn{}", r.below(1000)));
+    let name = gen_ident(r, "fn", 0);
     let c = CodeObj {
         argcount: 0,
         posonlyargcount: 0,
